@@ -619,6 +619,10 @@ func (g *G) listChain(depth int, role string) *N {
 		}
 	}
 	var chainArg *N
+	if g.t.Chance(1, 4) {
+		// an array as chain argument: the results are digested into it
+		chainArg = g.intArr(depth, 0, "chain/chainarg")
+	}
 	switch g.t.Pick(3, 2, 2, 2) {
 	case 0:
 		nf := g.noFault
@@ -629,7 +633,7 @@ func (g *G) listChain(depth int, role string) *N {
 	case 1:
 		for _, f := range g.funcs {
 			if f.np == 1 {
-				return &N{K: KVarC, A: recv, Str: f.name, Chain: Chain{Main: '@', Add: add}}
+				return &N{K: KVarC, A: recv, Str: f.name, Chain: Chain{Main: '@', Add: add, Arg: chainArg}}
 			}
 		}
 		fallthrough
@@ -643,13 +647,13 @@ func (g *G) listChain(depth int, role string) *N {
 				r.L = append(r.L, &N{K: KVar, Str: o.name})
 				r.Star = append(r.Star, 0)
 			}
-			c := &N{K: KPropC, A: r, Str: mth.name, Chain: Chain{Main: '@', Add: add}}
+			c := &N{K: KPropC, A: r, Str: mth.name, Chain: Chain{Main: '@', Add: add, Arg: chainArg}}
 			g.callArgs(c, mth.np, mth.kw, depth, true)
 			return c
 		}
 		fallthrough
 	default:
-		c := &N{K: KPropC, A: recv, Str: g.ops(), Chain: Chain{Main: '@', Add: add}}
+		c := &N{K: KPropC, A: recv, Str: g.ops(), Chain: Chain{Main: '@', Add: add, Arg: chainArg}}
 		c.L = []*N{g.intExpr(depth, "chain/arg")}
 		c.Star = []int{0}
 		return c
@@ -673,5 +677,11 @@ func (g *G) reduceChain(depth int, role string) *N {
 		g.noFault = nf
 		return &N{K: KLitC, A: recv, B: f, Chain: Chain{Main: '$', Add: add, Arg: init}}
 	}
-	return &N{K: KPropC, A: recv, Str: g.ops(), Chain: Chain{Main: '$', Add: add, Arg: init}}
+	c := &N{K: KPropC, A: recv, Str: g.ops(), Chain: Chain{Main: '$', Add: add, Arg: init}}
+	// extra arguments (ignored by the operator, but evaluated once, after the chain argument)
+	for i := g.t.Pick(2, 2, 1); i > 0; i-- {
+		c.L = append(c.L, g.intExpr(depth, "chain/arg"))
+		c.Star = append(c.Star, 0)
+	}
+	return c
 }
